@@ -1856,3 +1856,111 @@ def np_max_obj(interp, a, axis=None, **k):
 @model(_datetime.datetime.strptime, always=True)
 def dt_strptime(interp, s, fmt):
     return _timesym.strptime_model(interp, s, fmt)
+
+
+# ----------------------------------------------------------------------------
+# @contextmanager generators of the analysed code: the body is interpreted in a helper thread that is suspended at
+# its `yield` while the with-block runs (strict hand-over: only one of the two threads runs at any time)
+import threading as _threading
+import queue as _queue
+import contextlib as _contextlib
+
+
+class GenCM:
+    __pyvc_symbolic__ = True
+
+    def __init__(self, interp, fn, args, kwargs):
+        self.interp, self.fn, self.args, self.kwargs = interp, fn, args, kwargs
+        self.to_gen = _queue.Queue()
+        self.from_gen = _queue.Queue()
+        self.thread = None
+        self.done = False
+
+    # -- generator side
+    def _run(self):
+        from .interp import PyRaise
+        interp = self.interp
+        self.main_stack = interp.call_stack
+        self.gen_stack = ["<contextmanager %s>" % self.fn.__name__]
+        interp.call_stack = self.gen_stack
+        try:
+            interp.cm_stack.append(self)
+            try:
+                interp.run_function(self.fn, self.args, self.kwargs)
+                msg = ("return", None)
+            finally:
+                interp.cm_stack.remove(self)
+        except PyRaise as pr:
+            msg = ("raise", pr.exc)
+        except BaseException as exc:      # PathEnd, OutsideSubset, engine errors: hand over to the main thread
+            msg = ("control", exc)
+        interp.call_stack = self.main_stack
+        self.from_gen.put(msg)
+
+    def yield_point(self, value):
+        """called by the interpreter when the generator body reaches `yield value`"""
+        from .interp import PyRaise
+        self.interp.call_stack = self.main_stack
+        self.from_gen.put(("yield", value))
+        kind, payload = self.to_gen.get()
+        self.main_stack = self.interp.call_stack
+        self.interp.call_stack = self.gen_stack
+        if kind == "send":
+            return None
+        if kind == "throw":
+            raise PyRaise(payload)
+        raise PathEnd()                   # kill
+
+    def _wait(self):
+        kind, payload = self.from_gen.get()
+        if kind == "control":
+            self.done = True
+            raise payload
+        return kind, payload
+
+    # -- with-statement side
+    def __pyvc_enter__(self, interp):
+        from .interp import PyRaise
+        self.thread = _threading.Thread(target=self._run, daemon=True)
+        interp.ctx.ghost.setdefault("gen_cms", []).append(self)
+        self.thread.start()
+        kind, payload = self._wait()
+        if kind == "yield":
+            return payload
+        self.done = True
+        if kind == "raise":
+            raise PyRaise(payload)
+        raise PyRaise(RuntimeError("generator didn't yield"))
+
+    def __pyvc_exit__(self, interp, exc):
+        from .interp import PyRaise
+        if exc is None:
+            self.to_gen.put(("send", None))
+        else:
+            self.to_gen.put(("throw", exc))
+        kind, payload = self._wait()
+        self.done = True
+        if kind == "return":
+            if exc is not None:
+                return True           # the generator swallowed the exception
+            return False
+        if kind == "raise":
+            if payload is exc:
+                return False          # re-raised the same exception: propagate it
+            raise PyRaise(payload)
+        raise PyRaise(RuntimeError("generator didn't stop"))
+
+    def kill(self):
+        if not self.done and self.thread is not None and self.thread.is_alive():
+            self.to_gen.put(("kill", None))
+            try:
+                self.from_gen.get(timeout=5)
+            except _queue.Empty:
+                pass
+            self.done = True
+
+
+def is_contextmanager_helper(f):
+    code = getattr(f, "__code__", None)
+    return code is not None and code.co_name == "helper" and code.co_filename.endswith("contextlib.py") \
+        and hasattr(f, "__wrapped__")
